@@ -338,13 +338,15 @@ def run_world(ctx, case):
         if k >= 2:
             ctx.hit('exclude:several')
     scale = float(rng.choice([0.3, 0.5, 1.0]))
-    out_mode = ['given', 'default'][int(rng.integers(0, 2))]
-    other_dir = bool(rng.random() < 0.4)
+    rng.integers(0, 2); rng.random()        # (keeps the random stream of earlier versions)
+    out_mode = ['given', 'default', 'given'][i % 3]          # stratified: every class is reached whatever the seed
+    other_dir = (i % 5 in (1, 3))
     cwd = os.path.join(root, 'cwd')
     os.makedirs(cwd, exist_ok=True)
     out_given = os.path.join(root, 'outdir', 'result.gro')
     os.makedirs(os.path.dirname(out_given), exist_ok=True)
-    out_style = ['absolute', 'relative-plain', 'relative-subdir', 'relative-parent'][int(rng.integers(0, 4))]
+    rng.integers(0, 4)
+    out_style = ['absolute', 'relative-plain', 'relative-subdir', 'relative-parent'][(i // 3) % 4]
     if out_style == 'relative-plain':
         out_given = 'result.v2.gro'                       # relative to the working directory, dots in the name
     elif out_style == 'relative-subdir':
